@@ -158,6 +158,7 @@ func (cl *Cluster) LinkAll() {
 
 // NetStep performs one transport event chosen by the tape; false when idle.
 func (cl *Cluster) NetStep() bool {
+	cl.Net.Canonicalise()
 	evs := cl.Net.Enabled()
 	if len(evs) == 0 {
 		return false
@@ -165,6 +166,9 @@ func (cl *Cluster) NetStep() bool {
 	e := evs[cl.C.Tape.Choose(len(evs))]
 	sn, wi := cl.Net.Pending()
 	cl.C.Logf("net %s (of %d enabled; %d sender slots, %d in flight)", e, len(evs), sn, wi)
+	if os.Getenv("VERIF_DEBUG_NET") != "" {
+		cl.C.Logf("   %s", cl.Net.Describe())
+	}
 	cl.Net.Do(e)
 	synctest.Wait()
 	return true
